@@ -67,6 +67,7 @@ MODULE_DEPS = {
     "MCCache.tla": ["CacheTable.tla", "MCCache.tla"],
     "MCText.tla": ["Geometry.tla", "Rules.tla", "Text.tla", "MCText.tla"],
     "MCGeom.tla": ["Geometry.tla", "MCGeom.tla"],
+    "MCVocab.tla": ["Geometry.tla", "Vocab.tla", "MCVocab.tla"],
 }
 
 
@@ -206,7 +207,7 @@ def generate_records(name, module, constants, mode, outpath, timeout, sim=None, 
                              env=java_env(), text=True, bufsize=1 << 20)
         with gzip.open(tmpout, "wt", compresslevel=1) as gz:
             for ln in p.stdout:
-                if ln.startswith('"' + tag + ' '):
+                if ln.startswith(tuple('"%s ' % t for t in tag.split("|"))):
                     nrec += 1
                     gz.write(ln)
                 elif not ln.startswith(("Semantic", "Parsing", "Linting")):
@@ -275,6 +276,11 @@ def finish(prop, tier, level, violations, coverage, assumptions, t0, extra_known
     ensure_dirs()
     known = load_known()
     mine = [v for v in violations if v["property"] == prop]
+    # divergences from parts of the specification that no listed property states (module Vocab, ...): reported, never a verdict
+    beyond = [v for v in violations if v["property"] == "SPEC"]
+    for v in beyond[:10]:
+        print("NOTE: spec-divergence (beyond the listed properties, not a verdict) kind=%s count=%d detail=%s"
+              % (v["kind"], v.get("count", 1), json.dumps(v["detail"])[:300]))
     new, printed_known = [], {}
     for v in mine:
         hit = None
@@ -301,7 +307,8 @@ def finish(prop, tier, level, violations, coverage, assumptions, t0, extra_known
         rc = 1
     ev = {"property_id": prop, "tier": tier, "seed": seed(), "level": level, "coverage": coverage,
           "assumptions": assumptions, "wall_s": round(time.time() - t0, 1), "violations": len(new),
-          "known_findings_seen": sorted(printed_known.keys())}
+          "known_findings_seen": sorted(printed_known.keys()),
+          "spec_divergences_beyond_listed_properties": [{"kind": v["kind"], "count": v.get("count", 1), "detail": v["detail"]} for v in beyond[:10]]}
     with open(os.path.join(EVIDENCE, "%s.json" % prop), "w") as f:
         json.dump(ev, f, indent=1)
     log("%s %s: %s in %.0fs" % (prop, tier, "OK" if rc == 0 else "%d violation kind(s)" % len(new), time.time() - t0))
